@@ -62,6 +62,7 @@ pub struct Ctx {
 impl Ctx {
     pub fn new(prop: &str, tier: Tier) -> Ctx {
         let _ = CURRENT_PROP.set(prop.to_string());
+        start_watchdog(prop, tier.pick(20, 60));
         let seed = std::env::var("VERIF_SEED")
             .ok()
             .and_then(|s| s.parse().ok())
@@ -208,6 +209,82 @@ fn short(v: &Value) -> String {
 pub fn machinery(msg: &str) -> ! {
     eprintln!("MACHINERY: {msg}");
     std::process::exit(2);
+}
+
+// ---------------------------------------------------------------------------------------------------
+// Hang watchdog. Every evaluation of the subject (one parse of one input under one schedule) registers
+// its witness in a per-thread slot; a watchdog thread reports an evaluation that has not returned within
+// the limit as a violation of the property being checked (the subject does not terminate on an explored
+// input: no result exists that could satisfy the property) and ends the process - the spinning thread
+// cannot be interrupted. The limit is orders of magnitude above what any evaluation needs (milliseconds).
+pub struct WatchSlot {
+    started_ms: AtomicU64,
+    witness: Mutex<String>,
+}
+static WATCH_SLOTS: Mutex<Vec<std::sync::Arc<WatchSlot>>> = Mutex::new(Vec::new());
+static WATCH_T0: std::sync::OnceLock<Instant> = std::sync::OnceLock::new();
+thread_local! {
+    static MY_SLOT: std::sync::Arc<WatchSlot> = {
+        let s = std::sync::Arc::new(WatchSlot { started_ms: AtomicU64::new(0), witness: Mutex::new(String::new()) });
+        WATCH_SLOTS.lock().unwrap().push(s.clone());
+        s
+    };
+}
+pub struct WatchGuard {
+    prev: u64,
+}
+/// mark the start of one evaluation of the subject; `describe` writes the replayable witness
+pub fn watch(describe: impl FnOnce(&mut String)) -> WatchGuard {
+    let now = WATCH_T0.get_or_init(Instant::now).elapsed().as_millis() as u64 + 1;
+    MY_SLOT.with(|s| {
+        let prev = s.started_ms.load(Ordering::Relaxed);
+        if prev == 0 {
+            let mut w = s.witness.lock().unwrap();
+            w.clear();
+            describe(&mut w);
+            drop(w);
+            s.started_ms.store(now, Ordering::Release);
+        }
+        WatchGuard { prev }
+    })
+}
+impl Drop for WatchGuard {
+    fn drop(&mut self) {
+        if self.prev == 0 {
+            MY_SLOT.with(|s| s.started_ms.store(0, Ordering::Release));
+        }
+    }
+}
+pub fn start_watchdog(prop: &str, limit_secs: u64) {
+    let prop = prop.to_string();
+    WATCH_T0.get_or_init(Instant::now);
+    std::thread::spawn(move || loop {
+        std::thread::sleep(std::time::Duration::from_millis(500));
+        let now = WATCH_T0.get().unwrap().elapsed().as_millis() as u64 + 1;
+        let slots: Vec<std::sync::Arc<WatchSlot>> = WATCH_SLOTS.lock().unwrap().clone();
+        for s in slots {
+            let st = s.started_ms.load(Ordering::Acquire);
+            if st != 0 && now.saturating_sub(st) > limit_secs * 1000 {
+                let w = s.witness.lock().map(|w| w.clone()).unwrap_or_default();
+                if s.started_ms.load(Ordering::Acquire) != st {
+                    continue;
+                }
+                let dir = format!("{VERIF}/replays/{prop}");
+                let _ = std::fs::create_dir_all(&dir);
+                let path = format!("{dir}/{:016x}.json", (digest(&("hang", &w)) >> 64) as u64);
+                let body = json!({
+                    "property": prop, "check": prop, "kind": "hang", "witness": w,
+                    "detail": {"message": format!("the evaluation did not return within {limit_secs} s (the unchanged code needs milliseconds)")},
+                });
+                let _ = std::fs::write(&path, serde_json::to_string_pretty(&body).unwrap());
+                println!("VIOLATION property={prop} replay={path}");
+                println!("  kind=hang witness={w:?}");
+                use std::io::Write;
+                let _ = std::io::stdout().flush();
+                std::process::exit(1);
+            }
+        }
+    });
 }
 
 /// Run `f` under catch_unwind with the panic message captured.
